@@ -11,8 +11,8 @@
     code-length code: 7-bit root, lengths <= 7; and for every code with lengths
     <= 8), the lookup on any bit window returns exactly the symbol and the length
     that walking the canonical code tree of [Vp8lCanon] on the same bits gives.
-    The two-level case is modelled (and tied to the code by correspondence) but its
-    theorem is only stated: [lut_decode_eq_canonical_statement]. *)
+    The general two-level statement [lut_decode_eq_canonical_statement] is proved in
+    [Vp8lLut2] (second-level tables, nextTableBitSize = height of the sub-tree). *)
 From Coq Require Import List ZArith Lia Bool Sorting.Sorted.
 From Coq Require Import ZifyBool ZifyNat.
 From Webp Require Import Base.Res Vp8l.Vp8lArr Vp8l.Vp8lPrefix Vp8l.Vp8lCanon.
@@ -494,8 +494,7 @@ Qed.
 
 Transparent build.
 
-(** The general (two-level) statement; the model is tied to the code by the
-    correspondence runs, the proof covers the root-table case above. *)
+(** The general (two-level) statement, proved in [Vp8lLut2.lut_decode_eq_canonical]. *)
 Definition lut_decode_eq_canonical_statement : Prop :=
   forall root lens t tab w, 1 <= root <= 15 ->
   tree_of_lens lens = Ok t -> lut_build root lens = Ok tab -> 0 <= w ->
